@@ -6,6 +6,7 @@ pool.  After the last step of every sequence (every prefix is itself an explored
 every schema ever pooled still has the snapshot it entered with; arguments are unchanged; and a
 process-wide memo requires equal (event, operands) to give equal outcomes in every history.
 """
+import collections
 import copy
 import itertools
 
@@ -27,6 +28,11 @@ VALS = {"v_int": 0, "v_list": [0, "a"], "v_dict": {"a": 0}, "v_bad": [None],
         # cache or table keyed by value
         "v_zero": 0, "v_fzero": 0.0, "v_false": False, "v_one_list": [1], "v_fone_list": [1.0],
         "v_true_list": [True], "v_str": "a", "v_bytes": b"a"}
+# dict subclasses whose lookups of absent keys answer (and, for defaultdict, insert): a fresh one
+# per use, because a mutated argument must not leak into the next history
+MISSING = {"v_dd_int": lambda: collections.defaultdict(int, {"a": 0}),
+           "v_dd_list": lambda: collections.defaultdict(list),
+           "v_counter": lambda: collections.Counter({"a": 0})}
 COLLIDING = ("v_zero", "v_fzero", "v_false", "v_str", "v_bytes")
 COLLIDING_LISTS = ("v_one_list", "v_fone_list", "v_true_list")
 NPOOL = 6
@@ -94,6 +100,8 @@ def events():
            ("repr", "last"), ("gen", "last"), ("validate", "last", "v_list"),
            ("validate", "last", "V0"), ("subst", "last", "v_dict"), ("refine_fail_last",)]
     ev += [("from_native_v", vn) for vn in COLLIDING]
+    for vn in MISSING:
+        ev += [("validate", 3, vn), ("subst", 3, vn), ("eq_value", 3, vn)]
     ev += [("subst_untyped", vn) for vn in COLLIDING_LISTS]
     ev += [("subst_untyped_dict", vn) for vn in COLLIDING[:3]]
     muts = [("mut", "L0.append"), ("mut", "L0.clear"), ("mut", "L0.setitem"), ("mut", "D0.set"),
@@ -113,6 +121,8 @@ def operand(st, x):
 
 
 def value(st, name):
+    if name in MISSING:
+        return MISSING[name]()
     return st.V0 if name == "V0" else VALS[name]
 
 
@@ -181,6 +191,10 @@ def step(st, e, rng):
             return substitute(schema.list, arg(e[1], VALS[e[1]])), args
         if k == "subst_untyped_dict":
             return substitute(schema.dict, arg(e[1], {"n": VALS[e[1]]})), args
+        if k == "eq_value":
+            v = arg(e[2], value(st, e[2]))
+            a = operand(st, e[1])
+            return ("eq_value", a == v, a != v), args
         if k == "eq":
             a, b = operand(st, e[1]), operand(st, e[2])
             return ("eq", a == b, a != b), args
@@ -237,10 +251,12 @@ def run_history(seq, rng, acc=None):
     global ENTRY0
     if ENTRY0 is None:
         ENTRY0 = [snapshot(s, rng) for s in st.pool]
-    # fresh pools are compared cheaply here (props, repr) and fully at the end of the history
+    # fresh pools are compared by props only here and fully at the end of the history: no
+    # visitor may touch a pool member before the history starts, otherwise state that an operation
+    # caches on the instance (and a later operation copies) would be present in every history
     st.entry = list(ENTRY0)
     for s0, e0 in zip(st.pool, ENTRY0):
-        if (fp(s0), safe_repr(s0, 2000)) != e0[:2]:
+        if fp(s0) != e0[0]:
             found.append(("C07|freshly-built-schema-differs-from-first-build", safe_repr(s0)))
     names = list(st.names)
     for pos, e in enumerate(seq):
